@@ -168,7 +168,11 @@ func (ex *Exec) builtin(g *G, fr *Frame, b *ssa.Builtin, cc *ssa.CallCommon, arg
 	case "len":
 		switch x := args[0].(type) {
 		case *smt.Term:
-			done(B.StrLen(x))
+			if isOrd(x) {
+				done(B.Ite(B.Eq(x, B.BVC(0, OrdW)), ex.intC(0), ex.intC(16)))
+			} else {
+				done(B.StrLen(x))
+			}
 		case SliceV:
 			done(ex.intC(x.Len))
 		case MapV:
